@@ -108,6 +108,10 @@ def convert(t, var_names, assms, to_real, ctx):
         elif t.is_implies():
             return z3.Implies(rec(t.arg1), rec(t.arg))
         elif t.is_equals():
+            if isinstance(convert_type(t.arg1.get_type(), ctx), tuple):
+                # Functions and sets are translated to Z3 function declarations,
+                # which cannot be compared within the formula.
+                raise Z3Exception("convert: unsupported equality " + repr(t))
             return rec(t.arg1) == rec(t.arg)
         elif t.is_conj():
             return z3.And(rec(t.arg1), rec(t.arg)) if ctx is None else z3.And(rec(t.arg1), rec(t.arg), ctx)
